@@ -454,6 +454,18 @@ def call_method(ip, st, recv, name, args, kwargs):
         if h is not None:
             h(st, recv, d)
         return d
+    if isinstance(recv, SInt) and name == "to_bytes":
+        # n.to_bytes(1, order): OverflowError unless 0 <= n <= 255 (CPython: negative or too big to convert),
+        # else the one-byte bytes object holding n (either byte order)
+        length = args[0] if args else kwargs.get("length", 1)
+        if length != 1:
+            raise Unsupported("int.to_bytes with a length other than 1")
+        st.partial(both(V._cmp(">=", recv, 0), V._cmp("<=", recv, 255)), OverflowError, "int too big to convert")
+        from .text import SText
+
+        t = SText("bytes", 1, st.fresh_name("byte"))
+        st.assume(t.f(z3.IntVal(0)) == recv.e)
+        return t
     if isinstance(recv, SExc) and name == "with_traceback":
         return recv
     if isinstance(recv, tuple) and name == "index":
@@ -605,6 +617,8 @@ def b_int(ip, st, x=0, base=None):
         return mk_int(V._z(x))
     if isinstance(x, SInt):
         return x
+    if isinstance(x, ModelObj) and hasattr(x, "py_int"):
+        return x.py_int(ip, st)  # int(<modelled str>): the model decides (value / ValueError)
     if x is None:
         _raise(TypeError, "int() argument must be a string, a bytes-like object or a real number, not 'NoneType'")
     if isinstance(x, Sym):
@@ -1021,6 +1035,12 @@ def call_builtin(ip, st, f, args, kwargs):
                 return ip.call_fnval(st, FnVal(ref), args, kwargs)
     if isinstance(f, types.MethodType):
         raise Unsupported(f"call of bound real method {f!r}")
+    # "sep".join(list) where the list has a concrete length and concrete str items on this path: CPython's own join
+    # on a snapshot of the items (a list is a reference value here, hence not covered by the native rule below)
+    if getattr(f, "__name__", "") == "join" and isinstance(getattr(f, "__self__", None), str) and len(args) == 1 and not kwargs:
+        items = args[0].seq if isinstance(args[0], LRef) else args[0]
+        if isinstance(items, tuple) and all(isinstance(x, str) for x in items):
+            return f(list(items))
     # concrete call on concrete data of immutable builtin types: evaluate natively
     if _all_conc(args) and _all_conc(list(kwargs.values())) and _native_ok(f, args):
         try:
